@@ -101,7 +101,7 @@ CHECKS = {
                      "and record faults (remove, replay, swap, foreign, forged) with subsequence resp. prefix oracles in the "
                      "authenticated modes; equal-integer and digit-exposure probes in the encrypted modes.",
                 note=SAN_NOTE + "; confidentiality is a smoke test only; time is virtual (Receive time-out 0)"),
-    "C04": dict(ready=False, engine="two-party-engine", level="exploration", design_ref="DESIGN.md section 3 / C04, notes/c04.md",
+    "C04": dict(ready=True, engine="two-party-engine", level="exploration", design_ref="DESIGN.md section 3 / C04, notes/c04.md",
                 technique="refusal monitor over false statements (each first confirmed false with the harness's secrets) and an accept-iff-guess-equals-observed-challenge monitor with scripted verifier coins",
                 text="~1460 runs with false statements (substituted, duplicated, dropped, re-typed, non-member cards; non-cyclic "
                      "permutations for the rotation verifiers; type-changing masks; shares of another key; shifted key shares) over "
@@ -109,7 +109,7 @@ CHECKS = {
                      "honest transcript; ~2000 (guess, coin) pairs of guessing provers against the cut-and-choose verifiers, "
                      "exhaustive for kappa<=4 (kappa<=8 thorough): accepted iff the guess equals the challenge string seen on the wire.",
                 note=SAN_NOTE + "; only the listed prover strategies are covered (soundness against arbitrary provers is computational); one open known finding (maskcard-qr)"),
-    "C05": dict(ready=False, engine="two-party-engine", level="fault_enumeration", design_ref="DESIGN.md section 3 / C05, notes/c05.md",
+    "C05": dict(ready=True, engine="two-party-engine", level="fault_enumeration", design_ref="DESIGN.md section 3 / C05, notes/c05.md",
                 technique="tamper oracle: a fixed mutation catalogue applied to every prover line (man-in-the-middle relay), every public input handle and alternative self-consistent verifier objects; verdict must be refusal",
                 text="For all 39 prover/verifier pairs an accepted run is re-run once per (target, mutation): every prover->verifier "
                      "line (fields of structured lines individually) under +1, other member/residue, +q, +p, negation, delete "
@@ -125,7 +125,7 @@ CHECKS = {
                      "memory-class checks fatal, plus bounded libFuzzer runs on the OpenPGP targets (thorough: 7 targets, 1e6-2e6 "
                      "executions each, memcheck replay).  Any crash, abort, sanitizer report, hang or >3 GiB allocation is a keyed violation.",
                 note="san flavour (g++ ASan/UBSan) and fuzz flavour (clang-14 libFuzzer+ASan+UBSan); value-class UBSan checks are observations; ASan red zones miss far/intra-object overflows; budgets registered are below what was soaked clean"),
-    "C14": dict(ready=False, engine="case-runner", level="exploration", design_ref="DESIGN.md section 3 / C14, notes/c14.md",
+    "C14": dict(ready=True, engine="case-runner", level="exploration", design_ref="DESIGN.md section 3 / C14, notes/c14.md",
                 technique="online + offline trace checker over HANDOVER/SENT/API/DELIVER events of a harness-owned step network driving the real broadcast implementation under controlled message schedules",
                 text="~3000 schedules per quick run (random, PCT-style priority, starved-link, all schedules of one broadcast for "
                      "n=2, bounded-deviation enumeration for n=4, directed) for n in {2,3,4,5,7} with harness-fabricated Byzantine "
@@ -147,27 +147,27 @@ CHECKS = {
                      "Sign returned true must hold the same signature, valid under the jointly generated key by an independent "
                      "implementation; Verify must agree with the reference on the range-boundary catalogue.",
                 note=SAN_NOTE + "; signing runs that return false under faults are recorded, not judged"),
-    "C17": dict(ready=False, engine="two-party-engine", level="exploration", design_ref="DESIGN.md section 3 / C17, notes/c17.md",
+    "C17": dict(ready=True, engine="two-party-engine", level="exploration", design_ref="DESIGN.md section 3 / C17, notes/c17.md",
                 technique="value-based trace monitor on the line channel (share not on the wire before the peer's commitment was read), agreement/sum oracle, binding oracle under the mutation catalogue; n-party runs in the simulator",
                 text="~400 two-party flips per quick run with harness peers (honest, withholding, adaptive, copycat, mismatching "
                      "openings, mutated lines) in both roles, plus 42 n-party scenarios (n=2..5, slow party, single faulty "
                      "parties): outputs agree and equal the sum of the qualified shares; the honest share never appears on the wire "
                      "before every commitment arrived; mismatching openings are rejected / reconstructed.",
                 note=SAN_NOTE),
-    "C18": dict(ready=False, engine="two-party-engine", level="exploration", design_ref="DESIGN.md section 3 / C18, notes/c18.md",
+    "C18": dict(ready=True, engine="two-party-engine", level="exploration", design_ref="DESIGN.md section 3 / C18, notes/c18.md",
                 technique="output == M_sigma monitor, curious-chooser decryption attempts with the chooser's own secrets, blinding-pair distinctness, refusal of malformed first moves vs. an independent well-formedness predicate",
                 text="832 library transfers per quick run (1-of-2, 1-of-N, optimised 1-of-N; all N<=16, 32, 64; every index for "
                      "N<=16), 216 curious-chooser transfers with 4230 decryption attempts on the unchosen ciphertexts, ~1050 "
                      "malformed first moves (coinciding z values, non-members, catalogue).",
                 note=SAN_NOTE + "; hiding of unchosen messages is computational: only the chooser's own-secret decryption is tested"),
-    "C19": dict(ready=False, engine="case-runner", level="exploration", design_ref="DESIGN.md section 3 / C19, notes/c19.md",
+    "C19": dict(ready=True, engine="case-runner", level="exploration", design_ref="DESIGN.md section 3 / C19, notes/c19.md",
                 technique="differential monitor: emitted octets vs. an independent Python reference written from RFC 4880 (+ cited extensions), round-trip decode, GnuPG as second parser, refusal catalogue for damaged armor",
                 text="~22 000 byte-for-byte recomputations per quick run (radix-64, CRC-24, armor, body lengths incl. partial, MPIs, "
                      "S2K for 9 hashes x 24 count octets, fingerprints/key ids v4+v5, public/secret key, signature, PKESK packets "
                      "for all supported algorithms), ~45 000 round-trip/refusal evaluations, 98 gpg --list-packets/--import runs "
                      "comparing 433 packets field by field.",
                 note=SAN_NOTE + "; v5/AEAD framing is judged by the Python reference only (gpg 2.2 does not implement it); if gpg cannot start the sub-oracle is reported as not observed"),
-    "C20": dict(ready=False, engine="case-runner", level="fault_enumeration", design_ref="DESIGN.md section 3 / C20, notes/c20.md",
+    "C20": dict(ready=True, engine="case-runner", level="fault_enumeration", design_ref="DESIGN.md section 3 / C20, notes/c20.md",
                 technique="tamper oracle: every octet of signatures, keys, documents and ciphertexts flipped plus structural tampers and validity-time scenarios; positive oracle incl. GnuPG for the RFC 4880 subset; AEAD nonce-uniqueness monitor via interposed gcry_cipher_setiv",
                 text="477 artefacts per quick run (18 signature kinds x v4/v5 x RSA/DSA/ECDSA/EdDSA x 9 hashes; SEIPD, AEAD EAX/OCB x 7 "
                      "ciphers, SED, PKESK RSA/ElGamal/ECDH, SKESK) with ~370 000 single-octet flips, 2700 structural tampers "
